@@ -46,8 +46,8 @@ def mutate(rng, s, k, alpha, indels=True):
 def gen_config(rng, long_adapters=False, allow_force_anywhere=True):
     t = rng.choice(R.TYPES)
     wild = rng.random() < 0.3
-    if long_adapters and rng.random() < 0.35:
-        m = rng.choice([rng.randint(21, 40), rng.randint(58, 70)])
+    if long_adapters and rng.random() < (0.35 if long_adapters is True else long_adapters):
+        m = rng.choice([rng.randint(21, 40), rng.randint(58, 70), rng.randint(62, 66)])
     else:
         m = rng.randint(1, 20) if rng.random() < 0.8 else rng.randint(1, 6)
     alpha = "ACGT" if not wild else "ACGTNNRYSWKMBDHV"
@@ -63,6 +63,8 @@ def gen_config(rng, long_adapters=False, allow_force_anywhere=True):
     rate = rng.choice(RATES)
     if rng.random() < 0.15:
         rate = rng.choice(ABS_ERRORS)
+    if m > 40 and rng.random() < 0.5:
+        rate = rng.choice([0, 0, 0.01, 0.02, 1])   # few allowed errors: k-mers approach / exceed the 64-bit word
     cfg = dict(
         type=t,
         seq=seq,
